@@ -7,6 +7,7 @@ import (
 
 	"github.com/woodsbury/jmespath/internal/verifmc/core"
 	"github.com/woodsbury/jmespath/internal/verifmc/ref"
+	"github.com/woodsbury/jmespath/internal/verifrt"
 )
 
 // C06 — a compiled expression is a pure, reusable function of the data
@@ -67,7 +68,10 @@ func init() {
 		Rule: "states are (compiled Expression, history of documents already searched); a transition is one more Expression.Search on a document of the menu (arrays with spare capacity and sentinels in the hidden tail, shared sub-values, the same document repeated); " +
 			"every history up to the stated length is executed on a fresh compilation, also starting from warmed-up states; at every transition the outcome must equal a fresh one-shot Search on a fresh copy, the deep snapshot of every document (including hidden capacity) and the " +
 			"structural hash of the AST behind the Expression must be unchanged, and every earlier result must still have its original deep value; non-trivial = a transition whose result is a non-null, non-empty value; distinct_nontrivial counts distinct such results",
-		Phases:      []core.Phase{{Name: "histories", Build: "instr", Fn: c06Run}},
+		// the histories run twice: on the instrumented build (map ranges in sorted order: every expression), and on the pristine one, where
+		// Go's own randomised map iteration stays in play, for the expressions that do not enumerate object members (a result that
+		// follows the iteration order, like a home-made to_string, differs from the fresh search there)
+		Phases:      []core.Phase{{Name: "histories", Build: "instr", Fn: c06Run}, {Name: "histories-runtime-order", Build: "pristine", Fn: c06Run}, {Name: "other-expressions-first", Build: "pristine", Fn: c06RunPairs}},
 		Judge:       c06Judge,
 		Assumptions: []string{"a result may alias the caller's data (a[1:] is a sub-slice of the input); the property forbids writes, not aliasing", "MustCompile <=> Compile is checked by C03 over its whole string space"},
 	})
@@ -217,12 +221,45 @@ func c06Expressions(thorough bool) []string {
 	return out
 }
 
+// c06Enumerates: the expression's result may legitimately follow the order in which an object's members are enumerated.
+func c06Enumerates(e string) bool {
+	for i := 0; i < len(e); i++ {
+		if e[i] != '*' {
+			continue
+		}
+		// the array wildcard x[*] does not enumerate an object; ".[*]" is a multi-select holding an object wildcard
+		isArrayWildcard := i > 0 && e[i-1] == '[' && i+1 < len(e) && e[i+1] == ']' && !(i > 1 && e[i-2] == '.')
+		if !isArrayWildcard {
+			return true
+		}
+	}
+	for _, f := range []string{"keys(", "values(", "items(", "group_by(", "from_items(", "merge(", "{", ", $"} {
+		if strings.Contains(e, f) {
+			return true
+		}
+	}
+	return false
+}
+
 func c06Run(r *core.Run) {
 	exprs := c06Expressions(r.Thorough())
 	nd := len(c06Docs())
 	k := 2
 	if r.Thorough() {
 		k = 3
+	}
+	if !verifrt.Instrumented {
+		var keep []string
+		for _, e := range exprs {
+			if !c06Enumerates(e) {
+				keep = append(keep, e)
+			}
+		}
+		exprs = keep
+		k = 1
+		if r.Thorough() {
+			k = 2
+		}
 	}
 	r.Bound("expressions", len(exprs))
 	r.Bound("documents", nd)
@@ -271,7 +308,85 @@ func c06Run(r *core.Run) {
 	}
 }
 
+// texts that differ only in the white space inside a quoted token, or only in case, or only in layout between tokens: a
+// compiled expression must answer for its own text whatever was compiled before it in the same process
+var c06Families = [][]string{
+	{"split(@, ' ')", "split(@, '  ')", "split(@, '\t')", "split(@,  ' ')"},
+	{"'a b'", "'a  b'", "'a\tb'", "'a\nb'", " 'a b' "},
+	{"\"a b\"", "\"a  b\"", "\"a b\" ", "\"a\\tb\""},
+	{"`\"a b\"`", "`\"a  b\"`", "` \"a b\"`", "`\"a b\" `"},
+	{"join(' ', a)", "join('  ', a)", "join(', ', a)", "join(',  ', a)"},
+	{"a.b", "a .b", "a. b", "A.b", "a.B"},
+	{"{\"k 1\": a}", "{\"k  1\": a}", "{ \"k 1\" : a }"},
+	{"a[?b == 'x y']", "a[?b == 'x  y']", "a[? b == 'x y' ]"},
+	{"length('x y')", "length('x   y')", "length( 'x y' )"},
+}
+
+func c06PairDocs() []any {
+	return []any{
+		"a  b c", map[string]any{"a": []any{"p", "q"}, "a b": json.Number("1"), "a  b": json.Number("2"), "a\tb": json.Number("3"), "k 1": "one", "k  1": "two"},
+		map[string]any{"a": map[string]any{"b": json.Number("1"), "B": json.Number("2")}, "A": map[string]any{"b": json.Number("3")}},
+		map[string]any{"a": []any{map[string]any{"b": "x y"}, map[string]any{"b": "x  y"}}},
+	}
+}
+
+// c06PairPoint: compile first, then second; the second one's searches must equal fresh one-shot searches of its text.
+func c06PairPoint(r *core.Run, first, second string) *core.Violation {
+	core.Compile(first)
+	e, co := core.Compile(second)
+	_, panicked, _ := core.MustCompile(second)
+	r.Add("evaluations", 3)
+	mk := func(kind, exp, act string) *core.Violation {
+		return &core.Violation{Sig: "C06/" + kind + "/" + fnOf(second), Desc: fmt.Sprintf("Compile(%q), then Compile(%q)", first, second),
+			Point: map[string]any{"pair": true, "first": first, "second": second, "expr": second, "doc": "after Compile(" + first + ")"}, Expected: exp, Actual: act}
+	}
+	if panicked != (e == nil) {
+		return mk("mustcompile-disagrees-with-compile", fmt.Sprintf("MustCompile panics = %v", e == nil), fmt.Sprintf("panicked = %v", panicked))
+	}
+	for i, d := range c06PairDocs() {
+		one := core.Search(second, d)
+		r.Add("transitions", 1)
+		if e == nil {
+			if one.Key() != co.Key() {
+				return mk("compile-fails-but-search-differs", "the Compile failure: "+co.Short(), one.Short())
+			}
+			continue
+		}
+		got := core.ExprSearch(e, d)
+		r.Eval(got)
+		if got.Key() != one.Key() {
+			return mk("differs-from-fresh-search", fmt.Sprintf("document %d: %s", i, one.Short()), got.Short())
+		}
+	}
+	return nil
+}
+
+func c06RunPairs(r *core.Run) {
+	n := 0
+	for _, fam := range c06Families {
+		for _, first := range fam {
+			for _, second := range fam {
+				if first == second {
+					continue
+				}
+				n++
+				if !r.Mine(n) {
+					continue
+				}
+				r.Add("states", 1)
+				r.Begin(map[string]any{"expr": second, "doc": "after Compile(" + first + ")"})
+				if v := c06PairPoint(r, first, second); v != nil {
+					r.Violate(v)
+				}
+			}
+		}
+	}
+}
+
 func c06Judge(r *core.Run, phase string, pt map[string]any) *core.Violation {
+	if pbool(pt, "pair") {
+		return c06PairPoint(r, pstr(pt, "first"), pstr(pt, "second"))
+	}
 	if pbool(pt, "must") {
 		e := pstr(pt, "expr")
 		ce, _ := core.Compile(e)
